@@ -73,6 +73,7 @@ def instances(tier, seed):
             GEN_USERCATS[f"G{i}"] = members
             for duck in DUCKS:
                 out.append(("core", dict(kind="user", cat=f"G{i}", duck=duck, maxlen=9, members=members)))
+    out.append(("core", dict(kind="userreal")))
     out.append(("core", dict(kind="bridge", order="forward")))
     out.append(("core", dict(kind="bridge", order="reverse")))
     out.append(("core", dict(kind="bridge", order="shuffled")))
@@ -203,6 +204,8 @@ def scenario(inst, V):
     kind = inst["kind"]
     if kind == "bridge":
         return scenario_bridge(inst, V)
+    if kind == "userreal":
+        return scenario_userreal(inst, V)
     n = V.choose("len", inst["maxlen"] + 1)
     name = V.str("d", n, None, 32, 126)
     duck = DUCKCLS[inst["duck"]]
@@ -260,6 +263,39 @@ def scenario(inst, V):
     else:
         V.check("user-category", False, got=str(got))
     return dict(got=str(got))
+
+
+def scenario_userreal(inst, V):
+    """User categories declared in each documented way (a string, a compiled regex, a list /
+    tuple mixing both) with *real* regexes; names from a concrete menu (a C regex engine cannot
+    run on symbolic strings): accepted iff equal to a string member or matched by a pattern."""
+    import jaxtyping as jt
+    forms = [
+        ("bare-string", "my_dtype"),
+        ("bare-regex", re.compile(r"x\d+$")),
+        ("list", ["a", re.compile(r"b+$"), "c"]),
+        ("tuple", (re.compile(r"^u?int8$"), re.compile(r"^float\d+$"))),
+        ("two-regex-first-matches", [re.compile(r"float\d+$"), re.compile(r"int\d+$")]),
+        ("anchoring", [re.compile(r"abc")]),   # re.match anchors at the start only
+    ]
+    names = ["my_dtype", "my_dtyp", "x1", "x12", "xx1", "x1y", "a", "b", "bbb", "bab", "c", "d", "int8", "uint8", "uint88",
+             "float32", "float", "int16", "abc", "abcd", "zabc", ""]
+    fi = V.choose("form", len(forms))
+    label, decl = forms[fi]
+    ni = V.choose("name", len(names))
+    name = names[ni]
+
+    class Cat(jt.AbstractDtype):
+        dtypes = decl
+    members = [decl] if isinstance(decl, (str, re.Pattern)) else list(decl)
+    want = any((m == name) if isinstance(m, str) else bool(m.match(name)) for m in members)
+    res = {}
+    for dk in ("str", "torch", "numpy", "tf"):
+        got = c01.observe_check(DUCKCLS[dk](name), Cat[DUCKCLS[dk], "..."])
+        res[dk] = str(got)
+        eff_want = want if not (dk == "numpy" and name == "void") else False
+        V.check("user-category", got == (0 if eff_want else 1), form=label, name=name, duck=dk, got=str(got), expected=eff_want)
+    return dict(form=label, name=name, res=res)
 
 
 # ---- bridging layer ----------------------------------------------------------------------
